@@ -14,6 +14,7 @@ import (
 	"sync"
 
 	"github.com/influxdata/influxdb/pkg/file"
+	"github.com/influxdata/influxdb/pkg/verifhook"
 	"github.com/influxdata/influxdb/tsdb"
 )
 
@@ -402,6 +403,7 @@ func (t *Tombstoner) commit() error {
 	if err := file.SyncDir(filepath.Dir(t.tombstonePath())); err != nil {
 		return err
 	}
+	verifhook.Fire("tomb.committed", t.tombstonePath())
 
 	t.pendingFile = nil
 	t.bw = nil
